@@ -84,15 +84,15 @@ def appendArrayHeader (n : Nat) : Bytes :=
 /-! ### soundness against the spec parser -/
 
 theorem take_be_append (k n : Nat) (r : Bytes) : (be k n ++ r).take k = be k n := by
-  simp [List.take_append_of_le_length]
+  simp
 theorem drop_be_append (k n : Nat) (r : Bytes) : (be k n ++ r).drop k = r := by
   have := be_length k n
-  simp [List.drop_append_of_le_length, this]
+  simp [this]
 
 theorem header_intW (lead : UInt8) (w v : Nat) (r : Bytes) (hc : classify lead = .intW w)
     (hv : v < 256 ^ w) :
     header (lead :: (be w v ++ r)) = some (.scalar (.int (signed w v)), r) := by
-  simp [header, hc, headerOf, needs, take_be_append, drop_be_append, beVal_be w v hv]
+  simp [header, hc, headerOf, needs, beVal_be w v hv]
 
 theorem parse_of_header_scalar {b o r} (h : header b = some (.scalar o, r)) : parse b = some (o, r) := by
   simp [parse, parseF, h]
